@@ -385,7 +385,17 @@ Fixpoint check_C19_calls (x : gctx) (calls : list call) (run : list (list id * b
   | _ :: rest => block_ok run blk && check_C19_calls x rest [] []
   end.
 
-Definition check_C19_group (x : gctx) (calls : list call) : bool := check_C19_calls x calls [] [].
+(* accepted terminations of the scan *)
+Definition ok_terminations (calls : list call) : Z :=
+  count_occ_b (fun c => match c with CA (ATermInAsg _ _ true) => true | _ => false end) calls.
+
+(* never more than desired - min instances of the cloud group are terminated in one scan (desired as refreshed at
+   the start of the scan) *)
+Definition check_C19_budget (x : gctx) (calls : list call) : bool :=
+  (ok_terminations calls =? 0)
+  || match x_asg x with Some a => ok_terminations calls <=? a_desired a - a_min a | None => false end.
+
+Definition check_C19_group (x : gctx) (calls : list call) : bool := check_C19_calls x calls [] [] && check_C19_budget x calls.
 
 (* ---------- well-formed views: node names are unique (a Kubernetes invariant the nodupb-style claims rest on) ---------- *)
 Definition wf_ctx (x : gctx) : bool := nodupb (map n_name (x_nodes x)).
